@@ -113,7 +113,10 @@ SumRecord == [st |-> "sum", a |-> Join(Render(v_a)), sign |-> IF v_n = 0 - 1 THE
               scale |-> PrefixTerm(v_a),
               expect |-> LevelSumTerm(v_a, <<"x">>, IF v_n \in {2, 3} THEN <<"x">> ELSE <<"y">>, IF v_n = 0 - 1 THEN 0 - 1 ELSE 1),
               tags |-> {"level_sum", LName} \cup (IF v_n \in {2, 3} THEN {"same_operand"} ELSE {})]
+\* scenario classes that apply to every pair (temperature pairs included): uncertain sources
+Header == [st |-> "header", uncertainties |-> Uncertainties]
 EmitInv == Emit =>
+   /\ v_st = "root" => PrintT(ToJson(Header))
    /\ v_st \in {"pair", "frac"} /\ Kind # "" => PrintT(ToJson(PairRecord))
    /\ v_st = "sum" => PrintT(ToJson(SumRecord))
 =============================================================================
